@@ -25,9 +25,9 @@ def modelled : List Nat := [
 
 /-- sites whose loop body is a pointwise write per distinct key (the shape proved order-irrelevant for Finalise / the assign loop), or whose value is excluded by a stated hypothesis -/
 def provedIrrelevant : List Nat := [
-  1529766738520061,  -- clock src/core/vmexecutor.go VMExecutor.Execute [utility.GetTime] — GetTime readings are used only when situation == "casting" (excluded by hypothesis) and for the perf log line
-  1529767006955517,  -- clock src/core/vmexecutor.go VMExecutor.Execute [utility.GetTime] — GetTime readings are used only when situation == "casting" (excluded by hypothesis) and for the perf log line
-  1529767275390973,  -- clock src/core/vmexecutor.go VMExecutor.Execute [utility.GetTime] — GetTime readings are used only when situation == "casting" (excluded by hypothesis) and for the perf log line
+  3856436940803613,  -- clock src/core/vmexecutor.go VMExecutor.Execute [utility.GetTime guard=casting] — reading used only under situation == "casting" (excluded by hypothesis)
+  3856436672368157,  -- clock src/core/vmexecutor.go VMExecutor.Execute [utility.GetTime guard=casting] — reading used only under situation == "casting" (excluded by hypothesis)
+  819878443287521,  -- clock src/core/vmexecutor.go VMExecutor.Execute [utility.GetTime guard=none in=log] — argument of the perf log line only
   853210697014512,  -- float src/service/miner_manager.go MinerManager.AddMiner [float64 arithmetic] — Float64ToBigInt(float64(stake)) inside the uninterpreted miner executor
   2729115008603403,  -- float src/service/miner_manager.go MinerManager.AddStake [float64 arithmetic] — idem
   1651635626124009,  -- float src/service/reward_calculator.go RewardCalculator.NextRewardHeight [float64 arithmetic] — ceil(float64(h)/float64(n)): deterministic IEEE-754, input of RewardIn.nextHeight
@@ -50,7 +50,7 @@ def outOfPath : List Nat := [
   1874387891556681,  -- go src/service/transaction_pool.go TxPool.MarkExecuted [mysql.InsertLogs] — after the block is executed and accepted (log export)
   3615489623871734,  -- maprange src/storage/account/account_object.go Storage.String [s] — debug printing only
   2736704378582563,  -- maprange src/vm/contracts.go init [PrecompiledContracts] — vm.PrecompiledAddresses is never read (ActivePrecompiles has no caller)
-  3554710031530627  -- clock src/vm/vm_test_helper.go setDefaults [time.Now] — test helper
+  2650438225647281  -- clock src/vm/vm_test_helper.go setDefaults [time.Now guard=none] — test helper
 ]
 
 theorem sites_accounted : ∀ k ∈ siteKeys, k ∈ modelled ∨ k ∈ provedIrrelevant ∨ k ∈ outOfPath := by
